@@ -540,6 +540,7 @@ type LiveResp struct {
 	mu         sync.Mutex
 	cond       *sync.Cond
 	header     http.Header
+	sentHeader http.Header // what the peer gets: the header map as it was when the response was committed (first WriteHeader / Write / Flush)
 	status     int
 	wrote      bool
 	body       []byte
@@ -569,6 +570,7 @@ func (l *LiveResp) WriteHeader(code int) {
 	l.mu.Lock()
 	if !l.wrote {
 		l.wrote = true
+		l.sentHeader = l.header.Clone()
 		l.status = code
 	}
 	if l.returned {
@@ -600,6 +602,7 @@ func (l *LiveResp) Write(p []byte) (int, error) {
 	}
 	if !l.wrote {
 		l.wrote = true
+		l.sentHeader = l.header.Clone()
 		l.status = 200
 	}
 	l.body = append(l.body, p...)
@@ -619,6 +622,7 @@ func (l *LiveResp) Flush() {
 	}
 	if !l.wrote {
 		l.wrote = true
+		l.sentHeader = l.header.Clone()
 		l.status = 200
 	}
 	l.flushes++
@@ -730,6 +734,9 @@ func (l *LiveResp) Events() []SSEEvent {
 func (l *LiveResp) Snapshot() (status int, hdr http.Header, body []byte, returned bool, pan interface{}, late int) {
 	l.mu.Lock()
 	defer l.mu.Unlock()
+	if l.sentHeader != nil {
+		return l.status, l.sentHeader.Clone(), append([]byte(nil), l.body...), l.returned, l.panicVal, l.lateWrites
+	}
 	return l.status, l.header.Clone(), append([]byte(nil), l.body...), l.returned, l.panicVal, l.lateWrites
 }
 
